@@ -326,7 +326,11 @@ def check_cli(case):
     if abs(sum(sim) / len(sim) - sum(meas) / len(meas)) > 1e-9 * sscale:
         raise Violation('recession-table-mean-not-measured-mean', '')
     vector = yaml.safe_load(vector_text)
-    if vector != sim:
+    if len(vector) != len(sim) or any(
+            a != b and abs(a - b) > 1e-14 * max(abs(a), abs(b))
+            for a, b in zip(vector, sim)):
+        # (the vector may carry fewer digits than the table so that every
+        # value fits the field read by the PEST instruction file)
         raise Violation('recession-observations-differ-from-table',
                         repr((vector[:3], sim[:3])))
     # the water balance, with the ET the statement prescribes
